@@ -177,3 +177,5 @@ PROP = Prop(
     clauses=[Clause("fraud_view", check, strategy=_cases(), quick=500, thorough=12500, quick_shards=4,
                     min_nontrivial=200, doc="validation iff out of range; differential vs Scores")],
 )
+
+RULE_EXTRA = ("uint8 / bool / float32 arrays; a NaN next to an out-of-range value (only 'must raise' asserted); queries before and after assignment through the setters.")
